@@ -493,3 +493,27 @@ Example ex_store_dir_save :
   nv_dir_save dec16_impl enc16_impl 255 4 ex_store = Ok ex_store /\
   nv_direct_save dec16_impl enc16_impl 255 4 ex_store = Ok ex_store.
 Proof. vm_compute. split; reflexivity. Qed.
+
+(* two sibling variables "A" and "B" with the same GUID, each holding a nested store whose only entry
+   is a not-valid entry at offset 0 (the shape of AMI's StdDefaults / MfgDefaults): since repair 97e8235
+   the nested entries live below <GUID>/<offset of the variable>/ and no longer overwrite each other *)
+Definition ex_nested : bytes :=
+  [78;86;65;82; 38;0; 255;255;255; 134] ++ zrepeat 17 16 ++ [65;0] ++ [78;86;65;82; 10;0; 255;255;255; 8] ++
+  [78;86;65;82; 39;0; 255;255;255; 134] ++ zrepeat 17 16 ++ [66;0] ++ [78;86;65;82; 11;0; 255;255;255; 8; 85] ++
+  zrepeat 255 16.
+
+Example ex_nested_paths :
+  match nv_extract_paths dec16_impl 255 4 ex_nested with
+  | Ok ps => map render_nvpath ps
+  | _ => []
+  end = map str ["11111111-1111-1111-1111-111111111111/0x0/00000000-0000-0000-0000-000000000000/0x0.nvar";
+                 "11111111-1111-1111-1111-111111111111/0x26/00000000-0000-0000-0000-000000000000/0x0.nvar"]%string.
+Proof. vm_compute. reflexivity. Qed.
+
+Example ex_nested_dir_save :
+  match parse_store dec16_impl 255 ex_nested with
+  | Ok s => nvnodupb (nv_all_paths 4 [] s)
+  | _ => false
+  end = true /\
+  nv_dir_save dec16_impl enc16_impl 255 4 ex_nested = Ok ex_nested.
+Proof. vm_compute. split; reflexivity. Qed.
